@@ -31,6 +31,15 @@ Fixpoint to_expr (sp : span) (e : e0) : expr :=
          IfBranch None [SStatementExpression (to_expr sp b) sp] sp] sp
   end.
 
+(* the proved fragment: no division (the checker gives `/` its own three-way constraint; not covered here) *)
+Fixpoint in_fragment (e : e0) : bool :=
+  match e with
+  | Bin0 op a b => (match op with Nop | Div => false | _ => true end) && in_fragment a && in_fragment b
+  | Un0 _ a => in_fragment a
+  | If0 c a b => in_fragment c && in_fragment a && in_fragment b
+  | _ => true
+  end.
+
 (* ------------------------------------------------------------------ simple types and the tagged evaluator *)
 
 Inductive bty := TI | TF | TS | TB.
@@ -446,4 +455,164 @@ Section Accepted.
     split; [assumption|]. split; [eapply ext_trans; [exact Ea|]; eapply ext_trans; eassumption|].
     exists ta. split; assumption.
   Qed.
+
+  (* a block that consists of one expression statement: its value is the value of the expression
+     (the checker looks at the expression twice: once as a statement, once as the value of the block) *)
+  Lemma block_single a oa sp sp1 f ctx s r ov s' :
+    sound_expr a oa -> wf s ->
+    expression_block G (afix f) sp [SStatementExpression a sp1] ctx s = Ok ((r, ov), s') ->
+    wf s' /\ ext s s' /\ exists ta v, oa = Some ta /\ ov = Some v /\ head s' v = Some (bty_head ta).
+  Proof.
+    intros Sa W H. unfold expression_block in H. cbn [foldM last_stmt] in H.
+    apply bind_inv in H as (r1 & s1 & H1 & H).
+    apply bind_inv in H1 as (b' & s2 & H1 & Hr). injection Hr as <- <-.
+    apply bind_inv in H1 as (sr & s3 & Hs & Hu).
+    destruct f as [|f]; [discriminate|]. cbn [Tc.afix astep r_stmt] in Hs. unfold stmt_body in Hs.
+    apply bind_inv in Hs as ([r0 v0] & s4 & He & Hs). injection Hs as <- <-.
+    destruct (Sa _ _ _ _ _ W He) as (W4 & E4 & _).
+    assert (s2 = s4) by (destruct r0; cbn in Hu; injection Hu as _ <-; reflexivity). subst s2.
+    apply bind_inv in H as ([vret v] & s5 & He2 & H).
+    destruct (Sa _ _ _ _ _ W4 He2) as (W5 & E5 & (ta & -> & Hv)). cbn [snd] in Hv.
+    apply bind_inv in H as (r' & s6 & H6 & H). injection H as _ <- <-.
+    assert (P6 : pres (unify_option G sp b' vret)) by prs. destruct (P6 _ _ _ W5 H6) as [W6 E6].
+    split; [assumption|]. split; [eapply ext_trans; [exact E4|]; eapply ext_trans; eassumption|].
+    exists ta, v. repeat split. eapply head_keep; [exact E6|exact Hv|apply rigid_bty].
+  Qed.
+
+  Definition if_ty (oc oa ob : option bty) : option bty :=
+    match oc, oa, ob with
+    | Some TB, Some ta, Some tb => if bty_eqb ta tb then Some ta else None
+    | _, _, _ => None
+    end.
+
+  (* if c do a else b end *)
+  Lemma sound_if c a b oc oa ob sp :
+    sound_expr c oc -> sound_expr a oa -> sound_expr b ob ->
+    sound_expr (EIf [IfBranch (Some c) [SStatementExpression a sp] sp; IfBranch None [SStatementExpression b sp] sp] sp)
+               (if_ty oc oa ob).
+  Proof.
+    intros Sc Sa Sb f ctx s r s' W H. destruct f as [|f]; [discriminate|]. apply expr_inv in H. unfold expr_body in H.
+    apply bind_inv in H as ([er ex] & s1 & H1 & H). cbv beta iota in H1.
+    apply bind_inv in H1 as (tys & s2 & Hm & H1). cbn [mapM] in Hm.
+    (* first branch *)
+    apply bind_inv in Hm as ([r1 v1] & s3 & Hb1 & Hm). unfold if_branch in Hb1.
+    apply bind_inv in Hb1 as (cret & s4 & Hc & Hb1).
+    apply bind_inv in Hc as ([cr ct] & s5 & Hce & Hc).
+    destruct (Sc _ _ _ _ _ W Hce) as (W5 & E5 & (tc & -> & Hct)). cbn [snd] in Hct.
+    apply bind_inv in Hc as (bo & s6 & Hp & Hc). destruct (push_spec _ _ _ _ W5 Hp) as (W6 & E6 & Hbo).
+    apply bind_inv in Hc as (u7 & s7 & H7 & Hc). injection Hc as <- <-.
+    destruct (unify_result_head _ _ _ _ _ _ _ W6 H7) as (W7 & E7 & _ & _).
+    assert (Tc : tc = TB).
+    { destruct (bty_eqb TB tc) eqn:Eq; [symmetry; now apply bty_eqb_eq|]. exfalso.
+      eapply (unify_rejects g _ bo ct s6 HBool (bty_head tc) W6 Hbo); eauto using rigid_known, rigid_bty.
+      - eapply head_keep; [exact E6|exact Hct|apply rigid_bty].
+      - rewrite <- (shape_bty TB tc) in Eq. exact Eq. }
+    subst tc.
+    apply bind_inv in Hb1 as ([bret bval] & s8 & Hblk & Hb1).
+    destruct (block_single _ _ _ _ _ _ _ _ _ _ Sa W7 Hblk) as (W8 & E8 & (ta & va & -> & -> & Hva)).
+    apply bind_inv in Hb1 as (ru & s9 & H9 & Hb1). injection Hb1 as <- <- <-.
+    assert (P9 : pres (unify_option G sp cr bret)) by prs. destruct (P9 _ _ _ W8 H9) as [W9 E9].
+    (* second branch *)
+    apply bind_inv in Hm as (ys & s10 & Hm & Hr). injection Hr as <- <-.
+    apply bind_inv in Hm as ([r2 v2] & s11 & Hb2 & Hm). apply bind_inv in Hm as (ys' & s12 & Hn & Hm).
+    injection Hn as <- <-. injection Hm as <- <-.
+    unfold if_branch in Hb2. rewrite (bind_ok (ret None) _ s9 None s9 eq_refl) in Hb2.
+    apply bind_inv in Hb2 as ([bret2 bval2] & s13 & Hblk2 & Hb2).
+    destruct (block_single _ _ _ _ _ _ _ _ _ _ Sb W9 Hblk2) as (W13 & E13 & (tb & vb & -> & -> & Hvb)).
+    apply bind_inv in Hb2 as (ru2 & s14 & H14 & Hb2). injection Hb2 as <- <- <-.
+    assert (P14 : pres (unify_option G sp None bret2)) by prs. destruct (P14 _ _ _ W13 H14) as [W14 E14].
+    (* the joins *)
+    cbn [last_branch] in H1.
+    apply bind_inv in H1 as (rr & s15 & Hfr & H1).
+    assert (Pfr : pres (foldM (fun (acc : option tyid) (b0 : option tyid * option tyid) => unify_option G sp (fst b0) acc)
+                              [(ru, Some va); (ru2, Some vb)] None)) by prs.
+    destruct (Pfr _ _ _ W14 Hfr) as [W15 E15].
+    apply bind_inv in H1 as (value & s16 & Hfv & H1). cbn [foldM fst snd unify_option] in Hfv.
+    rewrite (bind_ok (ret (Some va)) _ s15 (Some va) s15 eq_refl) in Hfv.
+    apply bind_inv in Hfv as (b'' & s17 & Hu & Hfv). injection Hfv as <- <-.
+    apply bind_inv in Hu as (u & s18 & Hu & Hr). injection Hr as <- <-.
+    destruct (unify_result_head _ _ _ _ _ _ _ W15 Hu) as (W18 & E18 & Hru & _).
+    assert (Hva15 : head s15 va = Some (bty_head ta)).
+    { eapply head_keep; [exact E15| |apply rigid_bty]. eapply head_keep; [exact E14| |apply rigid_bty].
+      eapply head_keep; [exact E13| |apply rigid_bty]. eapply head_keep; [exact E9|exact Hva|apply rigid_bty]. }
+    assert (Hvb15 : head s15 vb = Some (bty_head tb)).
+    { eapply head_keep; [exact E15| |apply rigid_bty]. eapply head_keep; [exact E14|exact Hvb|apply rigid_bty]. }
+    assert (Eq : bty_eqb ta tb = true).
+    { destruct (bty_eqb ta tb) eqn:Eq; [reflexivity|]. exfalso.
+      eapply (unify_rejects g sp vb va s15 _ _ W15 Hvb15 Hva15); eauto using rigid_known, rigid_bty.
+      rewrite shape_bty. destruct ta, tb; cbn in Eq |- *; congruence. }
+    apply bty_eqb_eq in Eq. subst tb.
+    apply bind_inv in H1 as (v & s19 & Hv & H1). cbn [value_or_ret] in Hv. injection Hv as <- <-. injection H1 as <- <- <-.
+    assert (Hu18 : head s18 u = Some (bty_head ta)).
+    { rewrite Hru. eapply head_keep; [exact E18|exact Hvb15|apply rigid_bty]. }
+    destruct (tail_base _ _ _ _ _ _ Hu18 H) as [-> ->].
+    split; [assumption|]. split.
+    { eapply ext_trans; [exact E5|]. eapply ext_trans; [exact E6|]. eapply ext_trans; [exact E7|].
+      eapply ext_trans; [exact E8|]. eapply ext_trans; [exact E9|]. eapply ext_trans; [exact E13|].
+      eapply ext_trans; [exact E14|]. eapply ext_trans; [exact E15|exact E18]. }
+    exists ta. split; [|assumption]. cbn [if_ty]. destruct ta; reflexivity.
+  Qed.
+
+  (* ---------------------------------------------------------------- the theorem *)
+
+  Theorem accepted_simply_typed sp : forall e, in_fragment e = true -> sound_expr (to_expr sp e) (ty0 e).
+  Proof.
+    induction e as [z|r|s|b|op a IHa b IHb|op a IHa|c IHc a IHa b IHb]; cbn [to_expr ty0 in_fragment]; intros Hf;
+      repeat match goal with
+             | H : _ && _ = true |- _ => apply andb_true_iff in H as [? ?]
+             end;
+      try specialize (IHa ltac:(assumption)); try specialize (IHb ltac:(assumption)); try specialize (IHc ltac:(assumption)).
+    - apply (sound_lit _ TI). reflexivity.
+    - apply (sound_lit _ TF). reflexivity.
+    - apply (sound_lit _ TS). reflexivity.
+    - apply (sound_lit _ TB). reflexivity.
+    - change (match ty0 a with Some ta => match ty0 b with Some tb => bin_ty op ta tb | None => None end | None => None end)
+        with (lift2 (bin_ty op) (ty0 a) (ty0 b)).
+      destruct op.
+      + (* Nop: outside the fragment *) discriminate.
+      + apply sound_equ; auto.
+      + apply sound_equ; auto.
+      + apply sound_cmp; auto.
+      + apply sound_cmpequ; auto.
+      + apply sound_cmp; auto.
+      + apply sound_cmpequ; auto.
+      + apply sound_equ; auto.
+      + apply (sound_arith Add AAdd); auto.
+      + apply (sound_arith Sub ASub); auto.
+      + apply (sound_arith Mul AMul); auto 6.
+      + (* Div: outside the fragment *) discriminate.
+      + apply sound_andor; auto.
+      + apply sound_andor; auto.
+    - destruct op; [apply sound_neg|apply sound_not]; assumption.
+    - change (match ty0 c with Some TB => match ty0 a with Some ta => match ty0 b with Some tb => if bty_eqb ta tb then Some ta else None | None => None end | None => None end | _ => None end)
+        with (if_ty (ty0 c) (ty0 a) (ty0 b)) || idtac.
+      apply sound_if; assumption.
+  Qed.
 End Accepted.
+
+(* ================================================================== C02_E0 *)
+
+(* If the type checker accepts a closed expression of the fragment (in any well-formed state of the type
+   graph, any TypeCtx, any fuel), then the tagged evaluator does not get stuck on it: it returns a value whose
+   tag is the base type that heads the class the checker assigned to the expression. *)
+Theorem C02_E0 : forall farith fneg fcmp of_int scmp kinds g f ctx sp (e : e0) s r s',
+  in_fragment e = true -> wf s ->
+  r_expr (afix kinds (gfix g) f) (to_expr sp e) ctx s = Ok (r, s') ->
+  exists v t, eval farith fneg fcmp of_int scmp e = Some v /\ tag v = t /\ head s' (snd r) = Some (bty_head t).
+Proof.
+  intros farith fneg fcmp of_int scmp kinds g f ctx sp e s r s' Hf W H.
+  destruct (accepted_simply_typed kinds g sp e Hf f ctx s r s' W H) as (_ & _ & (t & Ht & Hh)).
+  destruct (simply_typed_sound farith fneg fcmp of_int scmp e t Ht) as (v & Hv & Tv).
+  exists v, t. auto.
+Qed.
+
+(* The full statement of C02, for reference (NOT proved; refuted by the witnesses in Props/C02.v together with
+   the run-time replay of the check).  `run_emitted r` stands for running the Lua text the backend emits for r
+   (coq/Back, coq/Lua: LuaCore.run on preamble ++ Emit.backend r) and returning the error message, if any;
+   a dynamic type error is an "attempt to ..." message of the Lua interpreter. *)
+Local Open Scope string_scope.
+Definition is_dynamic_type_error (msg : string) : bool := String.prefix "attempt to " msg.
+
+Definition C02_full_statement (run_emitted : resolved -> option string) : Prop :=
+  forall fuel r, typecheck fuel r = Ok tt ->
+  forall msg, run_emitted r = Some msg -> is_dynamic_type_error msg = false.
